@@ -158,6 +158,12 @@ def handle (op : String) (args : List String) : Option String :=
          | .utc => "ok utc"
          | .localFold f => s!"ok local {f}")
       | _, _, _ => "bad-args")
+  | "parser.tzcascade", [tzn, tzi, name, off] =>
+    -- `_build_tzaware` alone, on the (tzname, tzoffset) pair a text means
+    some (match (tzn.splitOn ";").mapM parseCps?, parseTzInfos? tzi, optName? name, parseOptInt? off with
+      | some tzn, some tzi, some n, some o =>
+        Py.showR showDescr (buildTzaware tzn tzi { tzname := n, tzoffset := o })
+      | _, _, _, _ => "bad-args")
   | "parser.dec", [cps, classes] =>
     -- the Decimal kernel: int(v), v % 1 truthiness, int(60 * (v % 1))
     some (match parseCps? cps with
